@@ -1,16 +1,20 @@
 
-/// F4 (verif): two bytes `00 C0` (header 0xC000: both frame-kind bits set) right after the mux handshake.
+/// F4 (verif): two bytes `00 C0` (header 0xC000: both frame-kind bits set, stream kind ACCEPT, stream id 0) right after the mux
+/// handshake, on a connection that has (at least) one stream with id 0 on the receiving side.
 /// Append to node/components/network/src/mux/tests/mod.rs and run: cargo test -p zksync_consensus_network --offline verif_f4
-/// Pre-fix: process_inbound_frames hits unreachable!("bad FrameKind") (panic); post-fix: RunError::Protocol.
+/// Pre-fix: process_inbound_frames hits unreachable!("bad FrameKind") (panic; the node's profiles abort on panic);
+/// post-fix: RunError::Protocol.
 #[tokio::test]
 async fn verif_f4_bad_frame_kind_is_a_protocol_error() {
-    use zksync_concurrency::io;
+    use zksync_concurrency::{io, limiter};
     let ctx = &ctx::test_root(&ctx::RealClock);
     let cfg = Arc::new(mux::Config { read_buffer_size: 1000, read_frame_size: 100, read_frame_count: 10, write_frame_size: 100 });
-    let m = mux::Mux { cfg, accept: BTreeMap::new(), connect: BTreeMap::new() };
+    // one "connect" stream for capability 0: frames the peer sends on ITS accept side (stream kind ACCEPT) are dispatched to it
+    let queue = mux::StreamQueue::new(ctx, 1, limiter::Rate::INF);
+    let m = mux::Mux { cfg, accept: BTreeMap::new(), connect: [(0, queue)].into() };
     let (a, mut b) = tokio::io::duplex(1 << 16);
     let peer = async {
-        let h = mux::Handshake { accept_max_streams: Default::default(), connect_max_streams: Default::default() };
+        let h = mux::Handshake { accept_max_streams: [(0, 1)].into(), connect_max_streams: Default::default() };
         frame::send_proto(ctx, &mut b, &h).await.unwrap();
         let _: mux::Handshake = frame::recv_proto(ctx, &mut b, 10 * 1024).await.unwrap();
         io::write_all(ctx, &mut b, &[0x00, 0xC0]).await.unwrap().unwrap();
@@ -24,5 +28,6 @@ async fn verif_f4_bad_frame_kind_is_a_protocol_error() {
             other => panic!("expected a protocol error, got {other:?}"),
         }
     };
-    tokio::select! { _ = run => {}, _ = peer => panic!("peer finished first") }
+    // both sides run to completion (the mux scope must not be dropped before it finishes)
+    tokio::join!(run, peer);
 }
